@@ -1,4 +1,4 @@
-import AndaVerif.Proofs.TxWrites
+import AndaVerif.Proofs.TxVersions
 /-
 A logical key identifies one Concept of a type (the pre-commit key-identity check), created rows
 are fresh, and the immutable columns of an element agree in all its version rows.
@@ -144,7 +144,7 @@ theorem exec_KeyInv {s : Store} (hwf : WF s) (ht : TInv s) (hk : KeyInv s) (st :
     | write hd u hkk s' w e' hw hr => exact absurd (by rw [hr]) (exec_no_refusedWrite hwf ht st e' w)
     | done hd u hkk s' w hw hr =>
         have hp := planned_planinv hwf st he
-        obtain ⟨w', extra, sp⟩ := writeLoop_spec (planned s st).tx.seq (planned s st).tx.staged hp.s.keys (planned s st).s []
+        obtain ⟨w', extra, erased, sp⟩ := writeLoop_spec (planned s st).tx.seq (planned s st).tx.staged hp.s.keys (planned s st).s []
         rw [hw] at sp
         have hw' : w = w' := by have := sp.changes; simpa using this
         subst hw'
@@ -205,31 +205,8 @@ theorem run_KeyInv {s : Store} (hwf : WF s) (ht : TInv s) (hk : KeyInv s) (l : L
 
 /-- a change reported as `create` is at an id that held nothing before the statement -/
 theorem exec_done_create_fresh {s : Store} (hwf : WF s) (st : Stmt) (q : Nat) (status : JStatus) (w : List Change)
-    (h : (exec s st).2 = .done q status w) (c : Change) (hc : c ∈ w) (hop : c.op = .create) : s.elems c.id = none := by
-  have hinv := planned_inv hwf st
-  rcases exec_cases s st with ⟨e', he, hr⟩ | ⟨he, hcc⟩
-  · rw [hr] at h; cases h
-  · have hp := planned_planinv hwf st he
-    cases hcc with
-    | dry hd hr => rw [hr] at h; cases h
-    | check hd e' hkk hr => rw [hr] at h; cases h
-    | write hd u hkk s' w' e' hw hr => rw [hr] at h; cases h
-    | done hd u hkk s' w0 hw hr =>
-        obtain ⟨w', extra, sp⟩ := writeLoop_spec (planned s st).tx.seq (planned s st).tx.staged hp.s.keys (planned s st).s []
-        rw [hw] at sp
-        have hw' : w0 = w' := by have := sp.changes; simpa using this
-        subst hw'
-        rw [hr] at h
-        simp only [Outcome.done.injEq] at h
-        obtain ⟨_, _, h3⟩ := h
-        subst h3
-        obtain ⟨x, hx, _, hceq, _, _⟩ := sp.written c hc
-        have hok := hp.s.entries _ hx
-        have hnew : x.isNew = true := by
-          cases hn : x.isNew with
-          | true => rfl
-          | false => exact absurd (by rw [hceq] at hop; exact hop) (hok.2 hn).1
-        exact hinv.fresh c.id (hp.n.newShell _ hx hnew)
+    (h : (exec s st).2 = .done q status w) (c : Change) (hc : c ∈ w) (hop : c.op = .create) : s.elems c.id = none :=
+  (((exec_done hwf st q status w h).versions c hc).1 hop).2
 
 /-- every version row agrees, in the immutable columns, with the row its element has now — which is
 not a shell -/
@@ -281,16 +258,15 @@ theorem exec_LInv {s : Store} (hwf : WF s) (ht : TInv s) (hl : LInv s) (st : Stm
         rw [hid, hel] at he1
         cases he1
         exact ⟨v.elem, hel, hst, rfl, rfl, rfl, rfl⟩
-      · obtain ⟨e0, he0, hst0, i1, i2, i3, i4⟩ := hl v hv
+      · -- an older row survived: its element was not purged
+        obtain ⟨hvold, hner⟩ := mem_eraseAll hv
+        obtain ⟨e0, he0, hst0, i1, i2, i3, i4⟩ := hl v hvold
         by_cases hin : ∃ c ∈ w, c.id = v.id
         · obtain ⟨c, hc, hid⟩ := hin
           obtain ⟨e1, he1, _, _, hst⟩ := ds.stamped c hc
-          have hop : c.op ≠ .create := by
-            intro hop
-            have := exec_done_create_fresh hwf st q status w ho c hc hop
-            rw [hid, he0] at this; cases this
-          obtain ⟨j1, j2, j3, j4⟩ := ds.immutable c hc e0 e1 (hid ▸ he0) he1 hop
-          exact ⟨e1, hid ▸ he1, hst, j1.trans i1, j2.trans i2, j3.trans i3, j4.trans i4⟩
+          rcases ds.immutable c hc e0 e1 (hid ▸ he0) he1 with ⟨j1, j2, j3, j4⟩ | hpur
+          · exact ⟨e1, hid ▸ he1, hst, j1.trans i1, j2.trans i2, j3.trans i3, j4.trans i4⟩
+          · exact absurd (hid ▸ hpur) hner
         · have hni : ∀ c ∈ w, c.id ≠ v.id := fun c hc heq => hin ⟨c, hc, heq⟩
           exact ⟨e0, by rw [ds.frame v.id hni]; exact he0, hst0, i1, i2, i3, i4⟩
 
@@ -298,5 +274,29 @@ theorem run_LInv {s : Store} (hwf : WF s) (ht : TInv s) (hl : LInv s) (l : List 
   induction l generalizing s with
   | nil => exact hl
   | cons st r ih => exact ih (exec_spec hwf st).wf (exec_TInv hwf ht st) (exec_LInv hwf ht hl st)
+
+/-! ## What a history destroys -/
+
+/-- the elements whose recorded versions a history destroys: the purges its **committed** statements staged -/
+def erasedRun : Store → List Stmt → List Id
+  | _, [] => []
+  | s, st :: r => erasedOf s st ++ erasedRun (exec s st).1 r
+
+theorem run_vlog {s : Store} (hwf : WF s) (ht : TInv s) (l : List Stmt) :
+    ∃ extra, (run s l).vlog = extra ++ eraseAll (erasedRun s l) s.vlog ∧ ∀ v ∈ extra, s.seq < v.seq := by
+  induction l generalizing s with
+  | nil => exact ⟨[], by simp [run, erasedRun, eraseAll_nil], by intro v hv; cases hv⟩
+  | cons st r ih =>
+      have sp := exec_spec hwf st
+      obtain ⟨ex2, h4, h5⟩ := ih sp.wf (exec_TInv hwf ht st)
+      obtain ⟨ex1, er1, h6, h7, h8⟩ := sp.vlog
+      have her : er1 = erasedOf s st := h8 (fun e w => exec_no_refusedWrite hwf ht st e w)
+      refine ⟨ex2 ++ eraseAll (erasedRun (exec s st).1 r) ex1, ?_, ?_⟩
+      · simp only [run, erasedRun]
+        rw [h4, h6, her, eraseAll_append, eraseAll_eraseAll]; simp
+      · intro v hv
+        rcases List.mem_append.mp hv with hv | hv
+        · have := h5 v hv; rw [sp.seq] at this; omega
+        · rw [h7 v (mem_eraseAll hv).1]; omega
 
 end AndaVerif.Tx
